@@ -7,15 +7,22 @@
 i128 ZM_mul(i128 a, i128 b){ return a * b; }
 i128 ZM_div(i128 a, i128 b){ return a / b; }
 i128 ZM_rem(i128 a, i128 b){ return a % b; }
+i128 ZM_mul_pure(i128 a, i128 b){ return a * b; }
+i128 ZM_div_pure(i128 a, i128 b){ return a / b; }
+i128 ZM_rem_pure(i128 a, i128 b){ return a % b; }
 #else
 i128 __CPROVER_uninterpreted_zmul(i128, i128);
 i128 __CPROVER_uninterpreted_zdiv(i128, i128);
 i128 __CPROVER_uninterpreted_zrem(i128, i128);
 static inline i128 zabs(i128 a){ return a < 0 ? -a : a; }
-i128 ZM_mul(i128 a, i128 b){
+static inline bool zm_mul_uf(i128 a, i128 b){ return !(a == 0 || b == 0 || a == 1 || b == 1 || a == -1 || b == -1); }
+i128 ZM_mul_pure(i128 a, i128 b){
   if (a == 0 || b == 0) return 0;
   if (a == 1) return b;  if (b == 1) return a;
   if (a == -1) return -b; if (b == -1) return -a;
+  return __CPROVER_uninterpreted_zmul(a, b); }
+i128 ZM_mul(i128 a, i128 b){
+  if (!zm_mul_uf(a, b)) return ZM_mul_pure(a, b);
   /* the result-range assumption below is sound only for operands below 2^50: that is an obligation */
   __CPROVER_assert(zabs(a) < ((i128)1 << 50) && zabs(b) < ((i128)1 << 50), "z model range: multiplication operands stay below 2^50 in magnitude");
   i128 r = __CPROVER_uninterpreted_zmul(a, b);
@@ -28,22 +35,30 @@ i128 ZM_mul(i128 a, i128 b){
   return r;
 }
 /* truncating division, b != 0 */
-i128 ZM_div(i128 a, i128 b){
+static inline bool zm_div_uf(i128 a, i128 b){ return !(a == 0 || b == 1 || b == -1 || zabs(a) < zabs(b) || a == b || a == -b); }
+i128 ZM_div_pure(i128 a, i128 b){
   if (a == 0) return 0;
   if (b == 1) return a; if (b == -1) return -a;
   if (zabs(a) < zabs(b)) return 0;
   if (a == b) return 1; if (a == -b) return -1;
+  return __CPROVER_uninterpreted_zdiv(a, b); }
+i128 ZM_div(i128 a, i128 b){
+  if (!zm_div_uf(a, b)) return ZM_div_pure(a, b);
   __CPROVER_assert(z_inrange(a) && z_inrange(b), "z model range: division operands stay below 2^100 in magnitude");
   i128 r = __CPROVER_uninterpreted_zdiv(a, b);
   __CPROVER_assume(z_inrange(r));   /* |a/b| <= |a| */
-  __CPROVER_assume(r != 0 && ((r > 0) == ((a > 0) == (b > 0))) && zabs(r) <= zabs(a) / 2 + (zabs(b) == 1));
+  __CPROVER_assume(r != 0 && ((r > 0) == ((a > 0) == (b > 0))) && zabs(r) <= (zabs(a) >> 1) + (zabs(b) == 1));
   return r;
 }
 /* remainder of truncating division: sign of the dividend, |r| < |b| */
-i128 ZM_rem(i128 a, i128 b){
+static inline bool zm_rem_uf(i128 a, i128 b){ return !(a == 0 || b == 1 || b == -1 || zabs(a) < zabs(b) || a == b || a == -b); }
+i128 ZM_rem_pure(i128 a, i128 b){
   if (a == 0 || b == 1 || b == -1) return 0;
   if (zabs(a) < zabs(b)) return a;
   if (a == b || a == -b) return 0;
+  return __CPROVER_uninterpreted_zrem(a, b); }
+i128 ZM_rem(i128 a, i128 b){
+  if (!zm_rem_uf(a, b)) return ZM_rem_pure(a, b);
   __CPROVER_assert(z_inrange(a) && z_inrange(b), "z model range: division operands stay below 2^100 in magnitude");
   i128 r = __CPROVER_uninterpreted_zrem(a, b);
   __CPROVER_assume(z_inrange(r));   /* |a%b| <= |a| */
